@@ -3,6 +3,7 @@ package main
 import (
 	"encoding/json"
 	"fmt"
+	"os"
 
 	"github.com/M2MGateway/go-smpp/pdu"
 )
@@ -75,5 +76,9 @@ func corrC20(r *Run) {
 		}
 	}
 	// --- the time half: pdu.Time / pdu.Duration (c20_time.go)
-	corrC20Time(r)
+	c := corrC20Time(r)
+	// --- thorough: the same op lines through the extracted OCaml model (c20_extract.go)
+	if !r.Quick || os.Getenv("VERIF_EXTRACTED") == "1" {
+		c20ExtractedDiff(r, c)
+	}
 }
